@@ -27,9 +27,16 @@ go build ./... || { echo "MUTANT-DOES-NOT-BUILD"; exit 2; }
 go test -vet=off -count=1 ./... 2>&1 | grep -v "no test files" | grep -v "^ok" | head -5
 echo "existing tests with mutant: rc=${PIPESTATUS[0]}"
 cd /verif
-git -C /repo worktree remove --force $W; rm -rf $W
-git -C /repo apply $D/patch.diff || exit 2
 rm -f /verif/replays/$ID-*.json
-./run $ID ${TIER:-quick} > /tmp/mutant_$ID.out 2>&1; rc=$?
-git -C /repo checkout -- .
+if [ -n "${SCRATCH:-}" ]; then
+  # leave /repo alone (a background run is reading it): the checks build from the scratch worktree
+  CHK=${CHECK:-$ID}
+  VERIF_REPO=$W ./run $CHK ${TIER:-quick} > /tmp/mutant_$ID.out 2>&1; rc=$?
+  git -C /repo worktree remove --force $W; rm -rf $W
+else
+  git -C /repo worktree remove --force $W; rm -rf $W
+  git -C /repo apply $D/patch.diff || exit 2
+  ./run ${CHECK:-$ID} ${TIER:-quick} > /tmp/mutant_$ID.out 2>&1; rc=$?
+  git -C /repo checkout -- .
+fi
 echo "check rc=$rc"; grep "^violation\|^summary\|^KNOWN" /tmp/mutant_$ID.out | cut -c1-260 | head -12
